@@ -28,6 +28,7 @@ type rtmp2MpegtsFilter struct {
 	audioCodecId int
 	videoCodecId int
 	done         bool
+	pmtVersion   uint8 // version_number of the pmt sent last
 }
 
 type iRtmp2MpegtsFilterObserver interface {
@@ -63,6 +64,7 @@ func newRtmp2MpegtsFilter(maxMsgSize int, observer iRtmp2MpegtsFilterObserver) *
 // @param msg: 函数调用结束后，内部不持有该内存块
 func (q *rtmp2MpegtsFilter) Push(msg base.RtmpMsg) {
 	if q.done {
+		q.announceLateTrack(msg)
 		q.observer.onPop(msg)
 		return
 	}
@@ -88,6 +90,39 @@ func (q *rtmp2MpegtsFilter) Push(msg base.RtmpMsg) {
 }
 
 // ---------------------------------------------------------------------------------------------------------------------
+
+// announceLateTrack
+//
+// the pmt is built from the codecs seen in the probe window. A track whose first message comes later (audio that joins
+// a video stream after more than maxMsgSize messages, or the other way round) used to be packed on its pid without ever
+// being announced: a demuxer ignored it. Now a new version of the pmt that announces it goes out in front of its first message.
+func (q *rtmp2MpegtsFilter) announceLateTrack(msg base.RtmpMsg) {
+	switch msg.Header.MsgTypeId {
+	case base.RtmpTypeIdAudio:
+		if q.audioCodecId != -1 || len(msg.Payload) == 0 {
+			return
+		}
+		q.audioCodecId = int(msg.Payload[0] >> 4)
+		if q.audioCodecId != int(base.RtmpSoundFormatAac) && q.audioCodecId != int(base.RtmpSoundFormatOpus) {
+			return
+		}
+	case base.RtmpTypeIdVideo:
+		if q.videoCodecId != -1 {
+			return
+		}
+		q.videoCodecId = int(msg.VideoCodecId())
+		if q.videoCodecId != int(base.RtmpCodecIdAvc) && q.videoCodecId != int(base.RtmpCodecIdHevc) {
+			return
+		}
+	default:
+		return
+	}
+
+	q.pmtVersion++
+	patpmt := mpegts.PackPat()
+	patpmt = append(patpmt, mpegts.PackPmtWithVersion(q.videoCodecId, q.audioCodecId, q.pmtVersion)...)
+	q.observer.onPatPmt(patpmt)
+}
 
 func (q *rtmp2MpegtsFilter) drain() {
 	patpmt := mpegts.PackPat()
